@@ -194,7 +194,7 @@ def r4_for_each(text, log, **kw):
                 r = receiver_start(s, d)
                 recv = s.slice(r, d - 1)
                 iv = _fresh()
-                repl = "for %s in 0..%s.len() { let %s = &%s[%s];%s}" % (iv, recv, pat, recv, iv, inner)
+                repl = "for %s in 0..%s.len() { let %s = &%s[%s];\n%s\n}" % (iv, recv, pat, recv, iv, inner)
                 return _edit(t, s, r, end, repl)
             # X.iter_mut().for_each(|v| ..)   (v: &mut T): every use of `*v` / `v` becomes X[i]
             if s.seq(p - 4, ".", "iter_mut", "(", ")"):
@@ -212,7 +212,7 @@ def r4_for_each(text, log, **kw):
                         last = bs.end(k)
                     k += 1
                 out.append(inner[last:])
-                repl = "for %s in 0..%s.len() {%s}" % (iv, recv, "".join(out))
+                repl = "for %s in 0..%s.len() {\n%s\n}" % (iv, recv, "".join(out))
                 return _edit(t, s, r, end, repl)
             raise Undecided("R4: unsupported for_each receiver near %r" % s.slice(max(0, p - 6), p + 1))
         return None
@@ -309,7 +309,26 @@ def tok_replace(text, log, rule="RX", frm=None, to=None, **kw):
     return _fix(text, step, log, rule)
 
 
+# --- RS: replace one whole statement, found by its leading tokens, by a trusted stand-in (always listed) ----
+def rs_stmt_replace(text, log, prefix=None, to="", rule="RS", **kw):
+    want = [x[1] for x in Src(prefix).toks if x[0] not in ("ws", "comment")]
+    s = Src(text)
+    for p in range(len(s) - len(want) + 1):
+        if s.seq(p, *want) and (p == 0 or s.txt(p - 1) in (";", "{", "}")):
+            q = p
+            while q < len(s) and s.txt(q) != ";":
+                if s.kind(q) == "open":
+                    q = s.closer(q)
+                q += 1
+            if q >= len(s):
+                raise Undecided("RS: statement `%s` has no terminator" % prefix)
+            log.hit(rule)
+            return text[:s.start(p)] + to + text[s.end(q):]
+    return text
+
+
 RULES = {
+    "RS": rs_stmt_replace,
     "R3": r3_opt_map,
     "R4": r4_for_each,
     "R5": r5_self_index,
@@ -327,6 +346,7 @@ def apply_rules(body, extra=()):
     """apply the default rules then unit-specific configured ones; returns (text, hits)"""
     log = Log()
     text = body
+    _counter[0] = 0
     for name in DEFAULT_ORDER:
         text = RULES[name](text, log)
     for name, kw in extra:
